@@ -735,7 +735,7 @@ fn check_ros2(seed: u64) -> i32 {
         let limit = 1 + r.below(70);
         // ---------------- rr / bw: callbacks with sporadic arrivals and scalar costs
         let n = 1 + r.below(3) as usize;
-        let cbs: Vec<Cb> = (0..n).map(|_| { let t = 3 + r.below(9); Cb { t, j: r.below(t + 2), c: 1 + r.below(3), rtb: r.below(12), kind: r.below(4) as u8, prio: r.below(3) as i32 } }).collect();
+        let cbs: Vec<Cb> = (0..n).map(|_| { let t = 3 + r.below(9); Cb { t, j: r.below(t + 2), c: 1 + r.below(3), rtb: r.below(12), kind: r.below(4) as u8, prio: [0, 1, 2, 0, 1, i32::MAX, i32::MIN][r.below(7) as usize] } }).collect();
         let abs: Vec<Sporadic> = cbs.iter().map(|cb| Sporadic::new(d(cb.t), d(cb.j))).collect();
         let cms: Vec<Scalar> = cbs.iter().map(|cb| Scalar::new(s(cb.c))).collect();
         // subchain: one or two distinct callbacks of the workload; the last one is the end of the chain
@@ -874,7 +874,7 @@ fn check_ros2_bw_all(seed: u64) -> i32 {
         let limit = 1 + r.below(70);
         // ---------------- rr / bw: callbacks with sporadic arrivals and scalar costs
         let n = 1 + r.below(3) as usize;
-        let cbs: Vec<Cb> = (0..n).map(|_| { let t = 3 + r.below(9); Cb { t, j: r.below(t + 2), c: 1 + r.below(3), rtb: r.below(12), kind: r.below(4) as u8, prio: r.below(3) as i32 } }).collect();
+        let cbs: Vec<Cb> = (0..n).map(|_| { let t = 3 + r.below(9); Cb { t, j: r.below(t + 2), c: 1 + r.below(3), rtb: r.below(12), kind: r.below(4) as u8, prio: [0, 1, 2, 0, 1, i32::MAX, i32::MIN][r.below(7) as usize] } }).collect();
         let abs: Vec<Sporadic> = cbs.iter().map(|cb| Sporadic::new(d(cb.t), d(cb.j))).collect();
         let cms: Vec<Scalar> = cbs.iter().map(|cb| Scalar::new(s(cb.c))).collect();
         // subchain: one or two distinct callbacks of the workload; the last one is the end of the chain
@@ -1022,7 +1022,7 @@ fn check_ros2_mono(seed: u64) -> i32 {
         let kind = r.below(3);
         let limit = 1 + r.below(80);
         let n = 1 + r.below(3) as usize;
-        let cbs: Vec<Cb> = (0..n).map(|_| { let t = 3 + r.below(9); Cb { t, j: r.below(t + 2), c: 1 + r.below(3), rtb: r.below(12), kind: r.below(4) as u8, prio: r.below(3) as i32 } }).collect();
+        let cbs: Vec<Cb> = (0..n).map(|_| { let t = 3 + r.below(9); Cb { t, j: r.below(t + 2), c: 1 + r.below(3), rtb: r.below(12), kind: r.below(4) as u8, prio: [0, 1, 2, 0, 1, i32::MAX, i32::MIN][r.below(7) as usize] } }).collect();
         let e = r.below(n as u64) as usize;
         let first = r.below(n as u64) as usize;
         let chain: Vec<usize> = if n >= 2 && first != e && r.below(2) == 0 { vec![first, e] } else { vec![e] };
@@ -1033,7 +1033,7 @@ fn check_ros2_mono(seed: u64) -> i32 {
             0 => hard[victim].c += 1,
             1 => hard[victim].j += 1 + r.below(3),
             2 => if hard[victim].t > 1 { hard[victim].t -= 1 },
-            3 => { let t = 3 + r.below(9); extra = Some(Cb { t, j: r.below(t + 2), c: 1 + r.below(3), rtb: r.below(12), kind: r.below(4) as u8, prio: r.below(3) as i32 }); }
+            3 => { let t = 3 + r.below(9); extra = Some(Cb { t, j: r.below(t + 2), c: 1 + r.below(3), rtb: r.below(12), kind: r.below(4) as u8, prio: [0, 1, 2, 0, 1, i32::MAX, i32::MIN][r.below(7) as usize] }); }
             4 => if hq > 1 { hq -= 1 },                   // less budget: less supply in every window
             5 => hard[victim].rtb += 1 + r.below(3),      // larger assumed response-time bound of a callback
             _ => hlimit += 1 + r.below(20),               // raising the limit must not change an Ok result
@@ -1173,7 +1173,7 @@ fn check_coincide(seed: u64) -> i32 {
             same!("coincide::chain constrained(Q=D=P)", ros2::rta_processing_chain(&con, &own, &demand::Slice::of(&rest), &demand::Slice::of(&rbfs), &demand::Slice::of(&rest[..0]), d(limit)),
                   ros2::rta_processing_chain(&ded, &own, &demand::Slice::of(&rest), &demand::Slice::of(&rbfs), &demand::Slice::of(&rest[..0]), d(limit)));
             // rr / bw
-            let cbs: Vec<Cb> = all.iter().map(|(t, j, c)| Cb { t: *t, j: *j, c: *c, rtb: r.below(12), kind: r.below(4) as u8, prio: r.below(3) as i32 }).collect();
+            let cbs: Vec<Cb> = all.iter().map(|(t, j, c)| Cb { t: *t, j: *j, c: *c, rtb: r.below(12), kind: r.below(4) as u8, prio: [0, 1, 2, 0, 1, i32::MAX, i32::MIN][r.below(7) as usize] }).collect();
             let cms: Vec<Scalar> = cbs.iter().map(|cb| Scalar::new(s(cb.c))).collect();
             let e = r.below(cbs.len() as u64) as usize;
             {
@@ -1349,7 +1349,7 @@ fn check_totality(seed: u64) -> i32 {
         // rr / bw over boxed models
         let abs: Vec<(Box<dyn ArrivalBound>, String)> = (0..n).map(|_| mk_ab(&mut r)).collect();
         let cms: Vec<(Box<dyn JobCostModel>, String)> = (0..n).map(|_| mk_cm(&mut r)).collect();
-        let kinds: Vec<Cb> = (0..n).map(|_| Cb { t: 1, j: 0, c: 1, rtb: r.below(15), kind: r.below(4) as u8, prio: r.below(3) as i32 }).collect();
+        let kinds: Vec<Cb> = (0..n).map(|_| Cb { t: 1, j: 0, c: 1, rtb: r.below(15), kind: r.below(4) as u8, prio: [0, 1, 2, 0, 1, i32::MAX, i32::MIN][r.below(7) as usize] }).collect();
         let e = r.below(n as u64) as usize;
         let desc = format!("{{\"callbacks\": {:?}, \"kinds(rtb,kind,prio)\": {:?}, \"end_of_chain\": {}, \"limit\": {}, \"supply\": {}}}", abs.iter().zip(cms.iter()).map(|(a, c)| format!("{} x {}", a.1, c.1)).collect::<Vec<_>>(), kinds.iter().map(|k| (k.rtb, k.kind, k.prio)).collect::<Vec<_>>(), e, limit, sdesc);
         {
@@ -1521,7 +1521,7 @@ fn check_ros2_any(seed: u64) -> i32 {
         let n = 1 + r.below(3) as usize;
         let abs: Vec<(Box<dyn ArrivalBound>, String)> = (0..n).map(|_| mk_ab_nested(&mut r, 1)).collect();
         let cms: Vec<(Box<dyn JobCostModel>, String)> = (0..n).map(|_| mk_cm(&mut r)).collect();
-        let kinds: Vec<Cb> = (0..n).map(|_| Cb { t: 1, j: 0, c: 1, rtb: r.below(12), kind: r.below(4) as u8, prio: r.below(3) as i32 }).collect();
+        let kinds: Vec<Cb> = (0..n).map(|_| Cb { t: 1, j: 0, c: 1, rtb: r.below(12), kind: r.below(4) as u8, prio: [0, 1, 2, 0, 1, i32::MAX, i32::MIN][r.below(7) as usize] }).collect();
         let e = r.below(n as u64) as usize;
         let first = r.below(n as u64) as usize;
         let chain: Vec<usize> = if n >= 2 && first != e && r.below(2) == 0 { vec![first, e] } else { vec![e] };
